@@ -348,6 +348,50 @@ def rx_find_submatch_index(ex, st, g, args, pos):
     return lift_str(ex, st, [args[1]], one)
 
 
+INTR['(*regexp.Regexp).FindStringSubmatchIndex'] = rx_find_submatch_index
+
+
+@intr('(*regexp.Regexp).FindAllStringIndex', '(*regexp.Regexp).FindAllIndex')
+def rx_find_all_index(ex, st, g, args, pos):
+    """all successive non-overlapping matches as [][]int (n < 0 only); bounded by hook max_findall, beyond = unwind obligation"""
+    ctx = ex.ctx
+    if not (is_c(args[2]) and args[2] < 0):
+        raise Unsupported('FindAllStringIndex with n >= 0')
+
+    def one(s):
+        M = ctx.hooks.get('max_findall', 4)
+        cur = 0
+        done = False
+        elems = []
+        cnt = 0
+        for it in range(M + 1):
+            m, caps, _ = rx_match(ex, st, g, args[0], s, pos, frm=cur)
+            m = b_and(m, b_not(done))
+            if it == M:
+                ctx.oblige('unwind', 'FindAllStringIndex: more than %d matches' % M, b_and(g, m), pos)
+                break
+            if m is False:
+                break
+            ctx.oblige('unsupported', 'FindAllStringIndex: empty match', b_and(g, m, i_cmp('==', caps[0], caps[1], W, True)), pos)
+            a = ite(m, caps[0], 0, W)
+            b = ite(m, caps[1], 0, W)
+            for t in (a, b):
+                if not is_c(t):
+                    set_ub(t, s.cap)
+            elems.append(mk_slice(ex, st, [a, b], 2))
+            cnt = i_bin('+', cnt, ite(m, 1, 0, W), W, True)
+            cur = ite(m, caps[1], cur, W)
+            if not is_c(cur):
+                set_ub(cur, s.cap)
+            done = b_or(done, b_not(m))
+        if not elems:
+            return NILSLICE
+        if not is_c(cnt):
+            set_ub(cnt, len(elems))
+        return mk_slice(ex, st, elems, cnt)
+    return lift_str(ex, st, [args[1]], one)
+
+
 def expand_template(tmpl):
     """Go regexp template: list of ('lit', bytes) | ('grp', n) ; names unsupported"""
     out = []
@@ -1460,6 +1504,18 @@ def i_isabs(ex, st, g, args, pos):
     return lift_str(ex, st, [args[0]], lambda s: b_and(i_cmp('>', s.ln, 0, W, True), i_cmp('==', s.at(0), 47, 8, False)))
 
 
+# ------------------------------------------------------------------ math/bits
+@intr('math/bits.Len', 'math/bits.Len64')
+def i_bits_len(ex, st, g, args, pos):
+    x = args[0]
+    if is_c(x):
+        return (x & mask(W)).bit_length()
+    r = 0
+    for k in range(1, W + 1):
+        r = ite(z3.UGE(x, z3.BitVecVal(1 << (k - 1), W)), k, r, W)
+    return r
+
+
 # ------------------------------------------------------------------ maps
 @intr('maps.clone')
 def i_maps_clone(ex, st, g, args, pos):
@@ -1867,6 +1923,52 @@ def i_scanner_scan(ex, st, g, args, pos):
                                      line=i_bin('+', line, ite(ok, 1, 0, W), W, True),
                                      calls=(calls + 1) if is_c(calls) else calls), pos)
     return ok
+
+
+EOF_ERR = IfaceV('error:eof', s_const('EOF'))
+
+
+@intr('(*bufio.Reader).ReadLine')
+def i_reader_readline(ex, st, g, args, pos):
+    """contract of bufio.Reader.ReadLine (default 4096-byte buffer): the next line without its end-of-line bytes; a line
+    that does not fit into the buffer is delivered in pieces, every piece but the last with isPrefix = true. The sentinel
+    line (a line of 70000 bytes) is delivered as two pieces (natively: 18)."""
+    o = ex.load(st, g, args[0], pos)
+    if isinstance(o, ChoiceV) or not isinstance(o, LibV) or 's' not in o.d:
+        raise Unsupported('ReadLine on %r' % (o,))
+    s = rope_str(o.d['s'])
+    p = o.d.get('rlpos', 0)
+    part = o.d.get('rlpart', False)
+    more = i_cmp('<', p, s.ln, W, True)
+    if more is False:
+        return (NILSLICE_BYTES(), False, EOF_ERR)
+    e = s.ln
+    found = False
+    for q in range(s.cap - 1, -1, -1):
+        hit = b_and(i_cmp('<', q, s.ln, W, True), i_cmp('==', s.b[q], 10, 8, False), i_cmp('<=', p, q, W, True))
+        e = ite(hit, q, e, W)
+        found = b_or(found, hit)
+    if not is_c(e):
+        set_ub(e, s.cap)
+    tok = s_substr(s, p, e)
+    hascr = b_and(i_cmp('>', tok.ln, 0, W, True), i_cmp('==', s_byte(tok, i_bin('-', tok.ln, 1, W, True)), 13, 8, False))
+    tl = ite(hascr, i_bin('-', tok.ln, 1, W, True), tok.ln, W)
+    if not is_c(tl):
+        set_ub(tl, tok.cap)
+    tok = Str(tok.b, tl)
+    nxt = ite(found, i_bin('+', e, 1, W, True), s.ln, W)
+    if not is_c(nxt):
+        set_ub(nxt, s.cap + 1)
+    islong = s_eq(tok, s_const(LONG_SENTINEL))
+    prefix = b_and(more, islong, b_not(part))          # first piece of the long line: position stays
+    adv = b_and(more, b_not(prefix))
+    ex.store(st, g, args[0], o.with_(rlpos=ite(adv, nxt, p, W), rlpart=b_and(more, prefix)), pos)
+    err = merge_vals(ex.ctx, st.heap, [(more, NILIFACE), (True, EOF_ERR)])
+    return (s_ite(more, tok, EMPTY), prefix, err)
+
+
+def NILSLICE_BYTES():
+    return EMPTY
 
 
 @intr('(*bufio.Scanner).Text', '(*bufio.Scanner).Bytes')
